@@ -58,12 +58,12 @@ pub fn run(ctx: &mut Ctx, _replay: Option<&[String]>) {
             for modulation in [Modulation::Bpsk, Modulation::Psk8] {
                 let bps = if modulation == Modulation::Psk8 { 3 } else { 1 };
                 if n % bps != 0 { continue; }
-                for inter in [0isize, 2, -2, 3, -3, 4, -4] {
+                for inter in [0isize, 2, -2, 3, -3, 4, -4, n as isize, -(n as isize), 1, -1] {
                     if inter != 0 && n % (inter.unsigned_abs()) != 0 { continue; }
                     if !ctx.thorough && rng.chance(1, 2) && inter.abs() == 4 { continue; }
                     let fac = Scripted {
                         counter: Arc::new(AtomicU64::new(0)), log: Arc::new(Mutex::new(Vec::new())), log_limit: 24,
-                        panic_every: 0, built: Arc::new(AtomicU64::new(0)), seed: ctx.seed,
+                        panic_every: 0, built: Arc::new(AtomicU64::new(0)), seed: ctx.seed, seq: false,
                     };
                     let log = fac.log.clone();
                     let t = BerTestBuilder {
@@ -108,7 +108,7 @@ pub fn run(ctx: &mut Ctx, _replay: Option<&[String]>) {
                 for i in (1..plen).rev() { p.swap(i, rng.below(i + 1)); }
                 let fac = Scripted {
                     counter: Arc::new(AtomicU64::new(0)), log: Arc::new(Mutex::new(Vec::new())), log_limit: 0,
-                    panic_every: 0, built: Arc::new(AtomicU64::new(0)), seed: 0,
+                    panic_every: 0, built: Arc::new(AtomicU64::new(0)), seed: 0, seq: false,
                 };
                 let t = BerTestBuilder {
                     h: h.clone(), decoder_implementation: fac, modulation: Modulation::Bpsk, puncturing_pattern: Some(&p),
@@ -129,7 +129,7 @@ pub fn run(ctx: &mut Ctx, _replay: Option<&[String]>) {
         let frames = ctx.scale(20_000, 200_000);
         let fac = Scripted {
             counter: Arc::new(AtomicU64::new(0)), log: Arc::new(Mutex::new(Vec::new())), log_limit: frames,
-            panic_every: 0, built: Arc::new(AtomicU64::new(0)), seed: 0,
+            panic_every: 0, built: Arc::new(AtomicU64::new(0)), seed: 0, seq: false,
         };
         let log = fac.log.clone();
         // the scripted decoder reports bit errors on frames 1,2,3 mod 4, so ~3/4 of the frames are frame errors
